@@ -364,7 +364,9 @@ def held_in_memory(pre_obj, op):
 
 def oracle(ctx, R, E, case, op, kind, o_i, pre, post, extra_pre, extra_post, out, events, dump_pre, dump_post, ambient, live_val):
     status = pre['objs'][o_i]['status']
-    strictly_detached = pre['objs'][o_i]['vals'] is None
+    # a strict session that had a connection must leave nothing readable (a strict session that never connected is not detached
+    # by SessionCache.close at all: the property allows either answer there)
+    strictly_detached = pre['objs'][o_i]['vals'] is None or (case['strict'] and R.had_connection)
     k = op['k']
     def viol(what, key, observed, expected):
         ctx.violation(what, dict(case, op=op_brief(op), object_status=status, ambient_session=ambient), observed=observed, expected=expected, key=key)
